@@ -12,6 +12,7 @@
 import PvModel.Props.C02
 import PvModel.Proofs.Stream
 import PvModel.Proofs.FDExact
+import PvModel.Proofs.FDProgram
 namespace Pv
 open Strm Goal
 
@@ -79,6 +80,79 @@ theorem C04_fd_conj_comm {ord ord' : Order} (ho : OrderOK ord) (ho' : OrderOK or
     (∀ st1, postAllF ord (State.empty n) as = .ok st1 → postAllF ord' (State.empty n) as' = .fail →
       ∀ γ, ¬ Sem NoI γ st1) := fd_order_free ho ho' n as as' hp hok
 
+
+/-- the solutions of a constraint program: the valuations that satisfy every atom of one of its paths -/
+def FSols (p : FProg) (γ : Subst) : Prop := ∃ path ∈ p.paths, ∀ a ∈ path, a.Sat γ
+
+/-- the engine computes them: every unpoisoned delivered state describes only solutions of the program -/
+theorem C04_engine_sound {ord : Order} (ho : OrderOK ord) (dfs : Call → State → State × G) (pf M nv : Nat)
+    (p : FProg) (hok : p.OK) :
+    ∃ k ys, drainF (solveAt dfs pf (M + 1)) k (solveAt dfs pf (M + 1) (p.goal ord) (State.empty nv)) = some ys ∧
+      ∀ s ∈ ys, s.panic = none → ∀ γ, Sem NoI γ s → FSols p γ := by
+  obtain ⟨k, ys, h1, _, h3, _⟩ := fd_program ho dfs pf M nv p hok
+  refine ⟨k, ys, h1, fun s hs hp γ hγ => ?_⟩
+  obtain ⟨path, hpth, hsem⟩ := h3 s hs hp
+  exact ⟨path, hpth, (hsem γ).1 hγ⟩
+
+/-- REORDERING, nested: swapping the two sides of a conjunction, or of a disjunction, ANYWHERE in a constraint
+    program (under further conjunctions, condes and fresh) leaves its solutions unchanged — and the engine's
+    delivered states describe exactly those (`C04_engine_sound`, `C17_program_complete`). -/
+theorem C04_program_comm (p q : FProg) (γ : Subst) :
+    (FSols (.conj p q) γ ↔ FSols (.conj q p) γ) ∧ (FSols (.alt p q) γ ↔ FSols (.alt q p) γ) := by
+  constructor
+  · unfold FSols
+    simp only [FProg.paths, List.mem_flatMap, List.mem_map]
+    constructor
+    · rintro ⟨_, ⟨x, hx, y, hy, rfl⟩, h⟩
+      exact ⟨y ++ x, ⟨y, hy, x, hx, rfl⟩, fun a ha => h a (by
+        rcases List.mem_append.1 ha with m | m
+        · exact List.mem_append.2 (.inr m)
+        · exact List.mem_append.2 (.inl m))⟩
+    · rintro ⟨_, ⟨y, hy, x, hx, rfl⟩, h⟩
+      exact ⟨x ++ y, ⟨x, hx, y, hy, rfl⟩, fun a ha => h a (by
+        rcases List.mem_append.1 ha with m | m
+        · exact List.mem_append.2 (.inr m)
+        · exact List.mem_append.2 (.inl m))⟩
+  · unfold FSols
+    simp only [FProg.paths, List.mem_append]
+    constructor
+    · rintro ⟨path, h | h, hs⟩
+      · exact ⟨path, .inr h, hs⟩
+      · exact ⟨path, .inl h, hs⟩
+    · rintro ⟨path, h | h, hs⟩
+      · exact ⟨path, .inr h, hs⟩
+      · exact ⟨path, .inl h, hs⟩
+
+/-- … and the solutions of a compound program are built from those of its parts, so a swap deep inside a
+    program does not change the whole either -/
+theorem C04_program_congr (p p' q q' : FProg) (hp : ∀ γ, FSols p γ ↔ FSols p' γ) (hq : ∀ γ, FSols q γ ↔ FSols q' γ)
+    (γ : Subst) :
+    (FSols (.conj p q) γ ↔ FSols (.conj p' q') γ) ∧ (FSols (.alt p q) γ ↔ FSols (.alt p' q') γ) ∧
+    (FSols (.fresh p) γ ↔ FSols (.fresh p') γ) := by
+  have conj_iff : ∀ a b : FProg, FSols (.conj a b) γ ↔ (FSols a γ ∧ FSols b γ) := by
+    intro a b
+    unfold FSols
+    simp only [FProg.paths, List.mem_flatMap, List.mem_map]
+    constructor
+    · rintro ⟨_, ⟨x, hx, y, hy, rfl⟩, h⟩
+      exact ⟨⟨x, hx, fun c hc => h c (List.mem_append.2 (.inl hc))⟩, ⟨y, hy, fun c hc => h c (List.mem_append.2 (.inr hc))⟩⟩
+    · rintro ⟨⟨x, hx, h1⟩, ⟨y, hy, h2⟩⟩
+      exact ⟨x ++ y, ⟨x, hx, y, hy, rfl⟩, fun c hc => (List.mem_append.1 hc).elim (h1 c) (h2 c)⟩
+  have alt_iff : ∀ a b : FProg, FSols (.alt a b) γ ↔ (FSols a γ ∨ FSols b γ) := by
+    intro a b
+    unfold FSols
+    simp only [FProg.paths, List.mem_append]
+    constructor
+    · rintro ⟨path, h | h, hs⟩
+      · exact .inl ⟨path, h, hs⟩
+      · exact .inr ⟨path, h, hs⟩
+    · rintro (⟨path, h, hs⟩ | ⟨path, h, hs⟩)
+      · exact ⟨path, .inl h, hs⟩
+      · exact ⟨path, .inr h, hs⟩
+  refine ⟨?_, ?_, ?_⟩
+  · rw [conj_iff, conj_iff, hp γ, hq γ]
+  · rw [alt_iff, alt_iff, hp γ, hq γ]
+  · exact hp γ
 
 section Examples
 private def defs0 : Unit → Nat → Nat × Goal Nat Unit := fun _ a => (a, .fail)
